@@ -132,6 +132,62 @@ def find_wide(R, want, tries=200000, tag="w"):
     return found
 
 
+def scalar_carry_grid(rng, w, n):
+    """n values r < L chosen limb by limb (limb width w) relative to the limbs M_i of L, so that the carries of r + L - equivalently the borrows of
+    the conditional subtraction (r + L) - L that ends a reduction - take every pattern: per limb one of {0, all ones, 2^w - M_i - 1 (propagates an
+    incoming carry only), 2^w - M_i (generates one), 2^w - M_i + 1, M_i - 1, M_i, random}.  Input selection only."""
+    nl = (253 + w - 1) // w
+    mask = (1 << w) - 1
+    M = [(L >> (w * i)) & mask for i in range(nl)]
+    out = []
+    t = 0
+    while len(out) < n and t < 50 * n:
+        t += 1
+        r = 0
+        for i in range(nl):
+            c = rng.randrange(8)
+            v = [0, mask, (mask - M[i]) & mask, (mask + 1 - M[i]) & mask, (mask + 2 - M[i]) & mask, (M[i] - 1) & mask, M[i], rng.randrange(mask + 1)][c]
+            if i == nl - 1:
+                v = [0, (M[i] - 1) & mask, rng.randrange(max(1, M[i])), 0][c % 4]
+            r |= v << (w * i)
+        if r < L:
+            out.append(r)
+    return out
+
+
+def wide_for_result(rng, r, want_nsub=None, tries=400):
+    """a 512-bit x = r + k * L (k seeded) - optionally one whose Barrett estimate needs `want_nsub` final subtractions"""
+    x = None
+    for _ in range(tries):
+        k = rng.randrange(1 << rng.choice((1, 8, 130, 250, 258)))
+        x = r + k * L
+        if x >= 1 << 512:
+            continue
+        if want_nsub is None or barrett_class(x)[1] == want_nsub:
+            return x
+    return x if x is not None and x < 1 << 512 else r
+
+
+def signing_scalar_events(R, n):
+    """the two scalar routines an Ed25519 signature is composed of (the wide reduction applied to both SHA-512 outputs, the multiply-add), on inputs
+    directed at the rare borrow classes of their final subtraction - classes a signature reaches with probability 2^-40 and below, since its
+    scalars are hash outputs: [(event, count key)]"""
+    evs = []
+    for r in scalar_carry_grid(R.rng, 56, n):
+        for ns in (0, 1):
+            evs.append(({"op": "scalar_reduce_wide", "bytes": le64(wide_for_result(R.rng, r, ns))}, ("component-wide", ns, r % 10 ** 9)))
+    low = L % (1 << 168)
+    for k in (1, 2, 255):
+        for r in ((k << 168) - 1, (k << 168) + low - 1 - low):
+            for ns in (0, 1):
+                evs.append(({"op": "scalar_reduce_wide", "bytes": le64(wide_for_result(R.rng, r % L, ns))}, ("component-wide-limb3", ns, k, r % 1000)))
+    for i, r in enumerate([L - 1, L - 2, 1 << 252, (1 << 252) + 1, (3 << 168) - 1, (1 << 224) - 1, 0, 1] + scalar_carry_grid(R.rng, 56, n // 2)):
+        a = R.rng.randrange(L)
+        b = ((1 << 254) | (R.rng.getrandbits(251) << 3)) % (1 << 255)
+        evs.append(({"op": "scalar_muladd", "a": le32(a), "b": le32(b), "c": le32((r - a * b) % L)}, ("component-muladd", i, r.bit_length())))
+    return evs
+
+
 def clamp(h):
     h = bytearray(h)
     h[0] &= 248
@@ -249,6 +305,26 @@ def fe_operands_for(op, t, rng):
     raise ValueError(op)
 
 
+def mul_small_operands(rng):
+    """(label, nine, encoding) - field elements given by their five 51-bit limbs (what from_bytes produces) for the small-constant multiplication
+    of the ladders: limb 0 solved so that low51(f0 * S) sits just below 2^51 and the wrap-around 19 * carry pushes it over (the tail carry of the
+    chain), or just does not; limb 4 full so that the top carry is as large as it gets.  Classes are confirmed by TLC (Fe64.tla)."""
+    out = []
+    M = (1 << 51) - 1
+    mid = lambda: sum(rng.randrange(1 << 51) << (51 * k) for k in (1, 2, 3))
+    for j in (1, 500, 10 ** 6, 1155000, 1300000, 5 * 10 ** 6):          # 19 * c is about 2.31e6 for S = 121666: 2j below / above that
+        f0 = (-j * pow(60833, -1, 1 << 50)) % (1 << 50)
+        for hi in (0, 1 << 50):
+            out.append(("ms121666/j=%d/%d" % (j, hi >> 50), 0, f0 | hi | mid() | (M << 204)))
+    for j in (1, 50, 150, 160, 400):                                      # 19 * c = 152 for S = 9
+        f0 = ((1 << 51) - j) * pow(9, -1, 1 << 51) % (1 << 51)
+        out.append(("ms9/j=%d" % j, 1, f0 | mid() | (M << 204)))
+    for nine in (0, 1):
+        out += [("ms/zero", nine, 0), ("ms/one", nine, 1), ("ms/p-1", nine, P - 1), ("ms/all-limbs-full", nine, (1 << 255) - 1), ("ms/limb0-full", nine, M), ("ms/limb4-full", nine, M << 204),
+                ("ms/seeded", nine, rng.randrange(P))]
+    return [(l, n, le32(v)) for l, n, v in out]
+
+
 A_MONT = 486662
 
 
@@ -272,13 +348,12 @@ def x25519_preimage(v, kbytes):
     return (1 + q2[1]) * pow(1 - q2[1], P - 2, P) % P
 
 
-def x25519_result_targets(rng, n):
-    """n target values for the result of X25519: small integers >= 19, low 51 / 26 / 25 bits nearly full, just below p, around 2^51k"""
-    cands = list(range(19, 80)) + [P - k for k in range(1, 60)]
-    for w in (51, 26, 25, 102, 153, 204):
-        for s in range(1, 20):
-            cands.append(((rng.getrandbits(255 - w) << w) | ((1 << w) - s)) % P)
-        cands += [(2 ** w + d) % P for d in range(-19, 20)]
-    rng.shuffle(cands)
-    # keep a spread: a few of each family first
-    return cands[:n * 40]
+def x25519_result_targets(rng):
+    """families of target values for the result of X25519 (candidates in order; the caller takes the first few of each family that are
+    u-coordinates of prime-order points): small integers >= 19 (the canonical encoding's +19 trick), just below p, the low 51 / 26 / 25 bits nearly
+    full with random upper bits (a borrow out of the lowest limb of either back-end), around 2^51k"""
+    fams = [("small", list(range(19, 120))), ("below-p", [P - k for k in range(1, 120)])]
+    for w in (51, 26, 25):
+        fams.append(("low%d" % w, [((rng.getrandbits(255 - w) << w) | ((1 << w) - s)) % P for s in (1, 2, 14, 15, 18, 19, 3, 17, 16, 10) for _ in range(6)]))
+    fams.append(("pow", [(2 ** w + d) % P for w in (51, 102, 153, 204) for d in (-1, 0, 1, -19, 19, -2, 2, -18, 18)]))
+    return fams
